@@ -1,1 +1,183 @@
-// harnesses over extracted items
+// harnesses over items / statement slices extracted textually from /repo/src/{main,config,cloud}.rs (see vlib/gen.py)
+// (C20-H1, C15, C13-H3)
+
+fn fake_format(_args: std::fmt::Arguments<'_>) -> String {
+    String::new()
+}
+
+/// C20-H1: an interface address with prefix length given by `nd` arbitrary decimal digits: 0..=32 yields the netmask
+/// with that many leading one bits, anything else an error, never a panic.
+fn netmask_digits(nd: usize) {
+    let d: [u8; 3] = kani::any();
+    let mut text = *b"10.0.0.1/000";
+    let mut v: u32 = 0;
+    let mut i = 0;
+    while i < nd {
+        kani::assume(d[i] >= b'0' && d[i] <= b'9');
+        text[9 + i] = d[i];
+        v = v * 10 + (d[i] - b'0') as u32;
+        i += 1;
+    }
+    let s = std::str::from_utf8(&text[..9 + nd]).unwrap();
+    let res = parse_ip_netmask(s);
+    match res {
+        Ok((ip, mask)) => {
+            assert!(v <= 32);
+            assert!(ip.octets() == [10, 0, 0, 1]);
+            let expect: u32 = if v == 0 { 0 } else { u32::MAX << (32 - v) };
+            assert!(u32::from(mask) == expect);
+        }
+        Err(e) => {
+            std::mem::forget(e);
+            assert!(v > 32);
+        }
+    }
+    vcover!(v == 0, "prefix_zero");
+    vcover!(v == 32, "prefix_32");
+    vcover!(v == 33, "prefix_33");
+    vcover!(v > 255, "prefix_above_u8");
+    witness!();
+}
+#[cfg_attr(kani, kani::proof, kani::unwind(14), kani::stub(std::fmt::format, fake_format))]
+pub fn c20_netmask_one_digit() {
+    netmask_digits(1)
+}
+#[cfg_attr(kani, kani::proof, kani::unwind(14), kani::stub(std::fmt::format, fake_format))]
+pub fn c20_netmask_two_digits() {
+    netmask_digits(2)
+}
+#[cfg_attr(kani, kani::proof, kani::unwind(14), kani::stub(std::fmt::format, fake_format))]
+pub fn c20_netmask_three_digits() {
+    netmask_digits(3)
+}
+/// /24 when the prefix is omitted
+#[cfg_attr(kani, kani::proof, kani::unwind(14), kani::stub(std::fmt::format, fake_format))]
+pub fn c20_netmask_default_24() {
+    let res = parse_ip_netmask("10.0.0.1");
+    match res {
+        Ok((ip, mask)) => {
+            assert!(ip.octets() == [10, 0, 0, 1]);
+            assert!(u32::from(mask) == 0xffff_ff00);
+        }
+        Err(e) => {
+            std::mem::forget(e);
+            assert!(false);
+        }
+    }
+    witness!();
+}
+
+// ===================================================================================================== C15
+/// the announcement interval chosen in GenericCloud::housekeep: for every own keep-alive and every set of advertised
+/// peer timeouts (0..=3 peers; none => the default applies) the delay is one second or strictly shorter than the
+/// smallest advertised timeout - and computing it does not panic
+fn announce_interval(npeers: usize) {
+    let update_freq: UpdateFreq = kani::any();
+    let timeouts: [u16; 3] = kani::any();
+    let now: Time = kani::any();
+    kani::assume(now >= 0 && now < (1 << 40));
+    let mut c = XCloud { peers: smallvec::ivec::IVec::new(), update_freq, next_peers: now };
+    let mut smallest: u32 = if npeers == 0 { DEFAULT_PEER_TIMEOUT as u32 } else { u32::MAX };
+    let mut i = 0;
+    while i < npeers {
+        c.peers.push((i as u8, XPeer { peer_timeout: timeouts[i] }));
+        if (timeouts[i] as u32) < smallest {
+            smallest = timeouts[i] as u32;
+        }
+        i += 1;
+    }
+    c.announce_interval_slice(now);
+    let delay = c.next_peers - now;
+    assert!(delay >= 0);
+    assert!(delay <= 1 || delay < smallest as Time);
+    // and never longer than the own keep-alive setting
+    assert!(delay <= update_freq as Time);
+    vcover!(smallest < 120, "small_advertised_timeout");
+    witness!();
+}
+#[cfg_attr(kani, kani::proof, kani::unwind(6))]
+pub fn c15_announce_interval_0_peers() {
+    announce_interval(0)
+}
+#[cfg_attr(kani, kani::proof, kani::unwind(6))]
+pub fn c15_announce_interval_1_peer() {
+    announce_interval(1)
+}
+#[cfg_attr(kani, kani::proof, kani::unwind(6))]
+pub fn c15_announce_interval_2_peers() {
+    announce_interval(2)
+}
+#[cfg_attr(kani, kani::proof, kani::unwind(6))]
+pub fn c15_announce_interval_3_peers() {
+    announce_interval(3)
+}
+
+/// Config::get_keepalive for every peer timeout and keep-alive option: the explicit value, else
+/// max(peer_timeout / 2 - 60, 1) without arithmetic fault; and what GenericCloud::new stores as update frequency
+#[cfg_attr(kani, kani::proof, kani::unwind(4))]
+pub fn c15_keepalive_default_and_explicit() {
+    let keepalive_set: bool = kani::any();
+    let keepalive: Duration = kani::any();
+    let peer_timeout: Duration = kani::any();
+    let cfg = XConfig { keepalive: if keepalive_set { Some(keepalive) } else { None }, peer_timeout };
+    let k = cfg.get_keepalive();
+    if keepalive_set {
+        assert!(k == keepalive);
+    } else {
+        let half = peer_timeout / 2;
+        assert!(k == if half > 61 { half - 60 } else { 1 });
+        assert!(k >= 1);
+        // the default keep-alive is strictly shorter than the own peer timeout (or one second)
+        assert!(k == 1 || k < peer_timeout);
+    }
+    let f = update_freq_of(&cfg);
+    if !keepalive_set && peer_timeout <= 2 * (u16::MAX as Duration) {
+        assert!(f as Duration == k);
+    }
+    vcover!(!keepalive_set && peer_timeout < 120, "small_own_timeout");
+    witness!();
+}
+
+/// one back-off step of a configured peer's reconnect entry: the invariant 1 <= interval <= 3600 and tries <= 10 is
+/// preserved, nothing overflows, the interval never shrinks and at most doubles, the next attempt is now + interval
+#[cfg_attr(kani, kani::proof, kani::unwind(4))]
+pub fn c15_backoff_step() {
+    let tries: u16 = kani::any();
+    let timeout: u16 = kani::any();
+    let now: Time = kani::any();
+    kani::assume(now >= 0 && now < (1 << 40));
+    kani::assume(timeout >= 1 && timeout <= 3600 && tries <= 10);
+    let mut e = XEntry { tries, timeout, next: 0 };
+    backoff_step_slice(&mut e, now);
+    assert!(e.timeout >= 1 && e.timeout <= 3600 && e.tries <= 10);
+    assert!(e.timeout >= timeout);
+    assert!(e.timeout == timeout || e.timeout as u32 == std::cmp::min(2 * timeout as u32, 3600));
+    assert!(e.next == now + e.timeout as Time);
+    assert!(e.next - now <= 3600);
+    // the initial entry satisfies the invariant
+    assert!(RECONNECT_INIT.0 <= 10 && RECONNECT_INIT.1 >= 1 && RECONNECT_INIT.1 <= 3600);
+    vcover!(e.timeout == 3600 && timeout < 3600, "cap_reached");
+    witness!();
+}
+
+// ===================================================================================================== C13-H3
+/// hub and router modes never learn from traffic; switch mode does; normal mode learns on tap devices only
+#[cfg_attr(kani, kani::proof, kani::unwind(4))]
+pub fn c13_learning_flag_table() {
+    let m: u8 = kani::any();
+    let tap: bool = kani::any();
+    let mode = match m % 4 {
+        0 => Mode::Normal,
+        1 => Mode::Hub,
+        2 => Mode::Switch,
+        _ => Mode::Router,
+    };
+    let (learning, broadcast) = mode_flags_slice(&XModeCfg { mode, device_type: if tap { Type::Tap } else { Type::Tun } });
+    match mode {
+        Mode::Hub => assert!(!learning && broadcast),
+        Mode::Router => assert!(!learning && !broadcast),
+        Mode::Switch => assert!(learning && broadcast),
+        Mode::Normal => assert!(learning == tap && broadcast == tap),
+    }
+    witness!();
+}
